@@ -120,6 +120,25 @@ def monStep (m : MonSt) (toks : List String) : MonSt × String :=
       match m.l.remove txs with
       | none => ({ m with dead := true }, "panic")
       | some l' => ({ m with l := l' }, "ok " ++ listenerStr l')
+  | ["restart"] =>
+    -- the monitor state and its ListenSlot are persisted with the tracker entry: restart is the identity
+    (m, "ok " ++ listenerStr m.l)
+  | [dirn, k] =>
+    if dirn == "orphan" then
+      let l' : Listener := if k == "s" then { m.l with st := { m.l.st with sawBlock := true } } else m.l
+      ({ m with l := l' }, "rej " ++ listenerStr l')
+    else if dirn != "addn" && dirn != "removen" then (m, "bad-op") else
+    match nat? k with
+    | none => (m, "bad-op")
+    | some k =>
+      let rec go (l : Listener) : Nat → Option Listener
+        | 0 => some l
+        | j + 1 => match (if dirn == "addn" then l.add [] else l.remove []) with
+          | none => none
+          | some l' => go l' j
+      match go m.l k with
+      | none => ({ m with dead := true }, "panic")
+      | some l' => ({ m with l := l' }, "ok " ++ listenerStr l')
   | "orphan" :: d :: _ =>
     -- a block the tracker refuses (it does not build on the tip): the monitor is not touched, except that
     -- the chunks of a streamed block set `saw_block` (`on_block_start`)
